@@ -308,6 +308,7 @@ CHECKS["C03"] = {
 }
 CHECKS["C12"] = {
     "harnesses": [
+        H("c01.VH_pp_placeholders", {"READS": 1}, {"READS": 2}, covers=["placeholders read after the header", "recorder ran"]),
         H("c01.VH_pp_allow", {"OFFSET0": 1, "READS": 1, "ROUNDS": 2}, {"OFFSET0": 1, "READS": 2, "ROUNDS": 2}, covers=["allowed peer", "peer outside the allow list", "recorder ran"], weight=4),
         H("c01.VH_step_proxyproto", {"params": {"READS": 1, "OFFSET0": 1, "MAXB": 5000, "MAXD": 1000, "ROUNDS": 2}, "timeout_ms": 60000},
           {"params": {"READS": 2, "OFFSET0": 0, "MAXB": 9000, "MAXD": 1000, "ROUNDS": 2}, "timeout_ms": 120000}, covers=["recorder ran", "more than 4096 bytes buffered"], weight=5),
